@@ -33,7 +33,8 @@ type c09Cfg struct {
 	// whose own handler only has the Upper kinds).
 	// Pre: "" | "reconfigured" (an explicit ownership is set first and then replaced by
 	// this configuration's, nil meaning default again) | "restart" (the service first runs
-	// with another explicit ownership, is stopped, reconfigured and served again)
+	// with another explicit ownership, is stopped, reconfigured and served again) |
+	// "restart-same" (configured once, then served, stopped and served again twice)
 	Pre string `json:"pre,omitempty"`
 	// Reapply: the same ownership (nil meaning default) is set again on the running
 	// service before ResetAll, as a configuration reload would
@@ -126,7 +127,7 @@ func c09RandCfg(r *rand.Rand, idx int) c09Cfg {
 		}
 	}
 	cfg.Queue = []string{"<default>", "<default>", "", "workers"}[r.Intn(4)]
-	cfg.Pre = []string{"", "", "", "reconfigured", "restart"}[r.Intn(5)]
+	cfg.Pre = []string{"", "", "", "reconfigured", "restart", "restart-same"}[r.Intn(6)]
 	cfg.Reapply = r.Intn(3) == 0
 	return cfg
 }
@@ -209,7 +210,7 @@ func c09KindOption(k string) res.Option {
 }
 
 func c09Own(s *res.Service, cfg c09Cfg) {
-	if cfg.Pre != "" {
+	if cfg.Pre == "reconfigured" || cfg.Pre == "restart" {
 		s.SetOwnedResources([]string{"pre.a", "pre.a.>"}, []string{"pre.b"})
 	}
 	if cfg.Pre == "restart" {
@@ -219,7 +220,7 @@ func c09Own(s *res.Service, cfg c09Cfg) {
 }
 
 func c09OwnFinal(s *res.Service, cfg c09Cfg) {
-	if !cfg.ResNil || !cfg.AccNil || cfg.Pre != "" {
+	if !cfg.ResNil || !cfg.AccNil || cfg.Pre == "reconfigured" || cfg.Pre == "restart" {
 		var rs, as []string
 		if !cfg.ResNil {
 			rs = cfg.Resources
@@ -297,6 +298,16 @@ func c09Check(c *core.Ctx, cfg c09Cfg) {
 			c09OwnFinal(rg.S, cfg)
 			err = rg.restart()
 			rg.C.NoGoID = true
+		}
+	}
+	if cfg.Pre == "restart-same" && err == nil {
+		// the same Service value is stopped and served again, twice, with nothing set in
+		// between: what was configured before the first run still holds
+		for k := 0; k < 2 && err == nil; k++ {
+			if err = rg.stop(); err == nil {
+				err = rg.restart()
+				rg.C.NoGoID = true
+			}
 		}
 	}
 	sig := c09CfgSig(cfg)
@@ -545,6 +556,9 @@ func c09Run(c *core.Ctx, b core.Batch) {
 		cfg.listen = i%2 == 0
 		if cfg.Pre == "restart" {
 			cfg.Pre = "reconfigured" // the two-run scenario is only driven on the recording connection
+		}
+		if cfg.Pre == "restart-same" {
+			cfg.Pre = ""
 		}
 		c09Nats(c, ne, cfg)
 	}
